@@ -229,6 +229,9 @@ func checkC04(c *Ctx) {
 
 	// ---- O4 copy-on-ingress / immutability ---------------------------------------------------------
 	c.checkTagsIngress("O4 copy-on-ingress", merge, copySan)
+	// the names and tags delivered are the derivation's with the sanitizer's own rule applied to each part
+	// (name rule for names, key rule for keys, value rule for values): shared with C06 O1
+	c.shared(checkC06, map[string]string{"O1 sanitize-before-sink": "O6 own-sanitizer-rule"})
 	c.checkStringMapMutations("O4 no-mutation")
 	for _, f := range []string{"prefix", "separator", "tags"} {
 		c.checkConstructorOnly("O4 immutable", "", "scope", f)
